@@ -34,8 +34,38 @@ float64 = float32
 
 
 class _Rand:
+    """numpy.random inside the kernel: seed is a no-op; a draw is an ARBITRARY outcome (decided by the solver, forks)"""
+
     def seed(self, *a):
         pass
+
+    def _pick(self, n):
+        e = symx.CTX.fresh_int('draw')
+        symx.CTX.solver.add(e >= 0, e < n)
+        return SInt(e, 0, n - 1).concretize() if n > 1 else 0
+
+    def choice(self, a, size=None, replace=True):
+        vals = list(a.data) if isinstance(a, Arr) else list(range(int(a)))
+        if size is None:
+            return vals[self._pick(len(vals))]
+        out, pool = [], list(range(len(vals)))
+        for _ in range(int(size)):
+            if not pool:
+                raise ValueError("Cannot take a larger sample than population when 'replace=False'")
+            k = pool[self._pick(len(pool))]
+            if not replace:
+                pool.remove(k)
+            out.append(vals[k])
+        return Arr(out, getattr(a, 'dtype', None))
+
+    def randint(self, low, high=None, size=None):
+        if high is None:
+            low, high = 0, low
+        return int(low) + self._pick(int(high) - int(low))
+
+    def shuffle(self, a):
+        rest = list(a.data)
+        a.data = [rest.pop(self._pick(len(rest))) for _ in range(len(rest))]
 
 
 random = _Rand()
